@@ -103,7 +103,7 @@ claim("C04",
       "DESIGN.md section 4, C04")
 
 claim("C06",
-      "'Never panics, never over-allocates' is a property of every operation on peer-controlled data, which the checker enumerates over the read side (everything reachable from serve plus Subscribe's use of the SUBACK): every index/slice/string-index obligation is discharged by a small sound linear prover from dominating length facts, preconditions lifted to and proved at every call site, and callee result summaries (narrow unsigned arithmetic is opaque, so wrap-around is not assumed away); the body allocation is shown to be in [0, 2^28-1] by a bit-width domain with stride-aware loop counters, for 64- and (thorough) 32-bit int; no other panic source exists on the read side outside a reasoned table; every readPacket/Parse error ends serve with that error, unknown types, wrong reserved flags, short bodies, QoS 3 and U+0000 are rejected with the documented sentinels, serve never returns nil; the reader goroutine records the error before reporting Closed and closing Done(); length guards are exact.",
+      "'Never panics, never over-allocates' is a property of every operation on peer-controlled data, which the checker enumerates over the read side (everything reachable from serve plus Subscribe's use of the SUBACK): every index/slice/string-index obligation is discharged by a small sound linear prover from dominating length facts, preconditions lifted to and proved at every call site, and callee result summaries (narrow unsigned arithmetic is opaque, so wrap-around is not assumed away); the body allocation is shown to be in [0, 2^28-1] by a bit-width domain with stride-aware loop counters, for 64- and (thorough) 32-bit int; no other panic source exists on the read side outside a reasoned table; every readPacket/Parse error ends serve with that error, unknown types, wrong reserved flags, short bodies, QoS 3 and U+0000 are rejected with the documented sentinels, serve never returns nil; the reader goroutine records the error before reporting Closed and before closing Done().",
       "Not covered: panics inside the user's handler or Transport; memory held by many in-flight packets; the slice in (*BaseClient).write depends on the io.Writer contract, not on peer bytes (table exception).",
       "guarded-index analysis: linear-form prover over dominating branch facts with interprocedural precondition lifting and summaries; bit-width abstract domain; error-discipline and sibling cross-checks",
       "DESIGN.md section 4, C06")
